@@ -112,7 +112,93 @@ pub fn gen_entries(rng: &mut Rng, t: &Tables) -> Vec<(Pat, String, Vec<i32>)> {
             _ => {}
         }
     }
+    // the very same (file, lines) entry more than once under a pattern: same-named files with the same
+    // content in different directories (vendored copies) produce exactly that
+    if !out.is_empty() && rng.chance(1, 3) {
+        for _ in 0..rng.range(1, 3) {
+            let e = out[rng.below(out.len())].clone();
+            for _ in 0..rng.range(1, 3) {
+                out.push(e.clone());
+            }
+        }
+    }
     rng.shuffle(&mut out);
+    out
+}
+
+/// A history of renderings in ONE working directory and one process: each step replaces the
+/// report of the step before. Later steps are derived from the first by the small edits a watch
+/// loop sees (both copies of a duplicated file change, a file is fixed, a pattern goes away).
+pub fn gen_history(rng: &mut Rng, t: &Tables) -> Vec<Synth> {
+    let mut cur = gen_entries(rng, t);
+    if cur.len() > 40 {
+        cur.truncate(40);
+    }
+    if cur.is_empty() {
+        let p = *rng.pick(&pats_of(t, CATS[0]));
+        cur.push((p, "a.sol".into(), vec![1]));
+    }
+    // make sure some entry occurs exactly twice
+    let e = cur[rng.below(cur.len())].clone();
+    cur.push(e);
+    let mut out = vec![Synth { entries: cur.clone(), iteration: Default::default() }];
+    for _ in 0..rng.range(1, 3) {
+        match rng.below(5) {
+            0 | 1 => {
+                // every copy of one duplicated entry changes in the same way (or is fixed)
+                let pick = cur[rng.below(cur.len())].clone();
+                let fixed = rng.chance(1, 2);
+                let new_lines: Vec<i32> = if fixed { vec![] } else { vec![pick.2.first().copied().unwrap_or(1) + 1, 77] };
+                let mut next = vec![];
+                for e in &cur {
+                    if *e == pick {
+                        if !new_lines.is_empty() {
+                            next.push((e.0, e.1.clone(), new_lines.clone()));
+                        }
+                    } else {
+                        next.push(e.clone());
+                    }
+                }
+                if next.is_empty() {
+                    next.push(pick);
+                }
+                cur = next;
+            }
+            2 => {
+                // the same map again
+            }
+            3 => {
+                // one entry more
+                let p = cur[rng.below(cur.len())].0;
+                cur.push((p, rng.pick(FILE_NAMES).to_string(), vec![rng.below(50) as i32 + 1]));
+            }
+            _ => {
+                // a pair of identical entries appears
+                let p = cur[rng.below(cur.len())].0;
+                let e = (p, rng.pick(FILE_NAMES).to_string(), vec![rng.below(50) as i32 + 1, 60]);
+                cur.push(e.clone());
+                cur.push(e);
+            }
+        }
+        out.push(Synth { entries: cur.clone(), iteration: Default::default() });
+    }
+    out
+}
+
+/// Render a history through the real `generate_report`, all steps in one world.
+pub fn render_seq(steps: &[Synth]) -> Vec<Rendered> {
+    let env = SimEnv::new(World::new("/r"), Schedule::default(), None);
+    let mut out = vec![];
+    for s in steps {
+        let maps = Maps::from_flat(&s.entries);
+        let r = with_env(&env, || generate_report(maps.v, maps.o, maps.q));
+        let w = env.world();
+        out.push(Rendered {
+            report: w.file("/r/solstat_report.md").map(|(b, _)| b.clone()),
+            abort: r.err(),
+            journal: vec![],
+        });
+    }
     out
 }
 
